@@ -333,13 +333,17 @@ pub fn plan(p: u32, tier: &str) -> Vec<Run> {
             add(s3(true), families::slots(3));
             add(s4(true), families::slots(4));
             add(noise("S3D2-noise+follow", 2, true, false), families::slots(3));
+            // a consumer validated through the renamed-upstream fallback must still be up to date afterwards
+            let mut rn = rename("rename-prod+follow", Conv::Parts, Cmp::Prod);
+            rn.follow = true;
+            add(rn, families::rename_opts(false, Kind::O, false));
             if thorough {
                 let mut d3f = s("S3D3+follow-last", 3, m);
                 d3f.follow = true;
                 d3f.faults = vec![true, true, false];
                 add(d3f, families::slots(3));
                 add(shapes_spec("shapes-D2+follow", 2, true), families::shapes(true));
-                let mut rn = rename("rename-prod+follow", Conv::Parts, Cmp::Prod);
+                let mut rn = rename("rename-prod-y+follow", Conv::Parts, Cmp::Prod);
                 rn.follow = true;
                 add(rn, families::rename_opts(true, Kind::O, false));
             }
@@ -370,6 +374,12 @@ pub fn plan(p: u32, tier: &str) -> Vec<Run> {
             add(o4, families::slots(4));
             add(rename("rename-prod", Conv::Parts, Cmp::Prod), families::rename_opts(true, Kind::O, false));
             add(shapes_spec("shapes-D2", 2, false), families::shapes(true));
+            // 4 slots with history: failure-free build, one edit, every schedule, three declaration orders
+            let mut o4h = s("S4D2-k1-ff-orders-few", 2, m);
+            o4h.edit_bound = Some(1);
+            o4h.faults = vec![false, false];
+            o4h.orders = Orders::Few;
+            add(o4h, families::slots(4));
             add(late("late2x-ff", false), families::late_gadget(2, true));
             add(late("latepair-ff", false), families::late_pair());
             add(late("bigshapes-ff", false), families::big_shapes());
